@@ -193,19 +193,16 @@ class RateModel:
                 if leaf[0] == "undef" or leaf == ("undef",):
                     continue
                 # optional-factor conditions
-                tests = []
-                for x in walk(leaf):
-                    if isinstance(x, tuple) and x and x[0] == "ifexp" and truthy(x[1]) is None and x[1] not in tests:
-                        tests.append(x[1])
-                tests = [t for t in tests if not any(t != u and _contains(u, t) for u in tests)]
-                combos = list(itertools.product([True, False], repeat=len(tests))) if enumerate_conditions and len(tests) <= 4 else [()]
-                for combo in combos:
-                    assume = dict(zip(tests, combo))
-                    pe = peval(_comp_filter_eval(peval(leaf, assume), assume), assume)
-                    pe = simp(pe)
+                seen_txt = set()
+                for assume, pe in _expand(leaf, {}, enumerate_conditions):
+                    if any(isinstance(x, tuple) and x == ("undef",) for x in walk(pe)):
+                        continue
                     lw = lower(pe)
-                    kind = "text"
-                    out.append(Variant(cls, meth, dc, file, f.line, conds, assume, kind, lw.text, dict(lw.holes), dict(lw.seqs), b2, raw=pe))
+                    sig = (lw.text, tuple(sorted(map(repr, lw.holes.values()))))
+                    if sig in seen_txt:
+                        continue
+                    seen_txt.add(sig)
+                    out.append(Variant(cls, meth, dc, file, f.line, conds, assume, "text", lw.text, dict(lw.holes), dict(lw.seqs), b2, raw=pe))
         return out
 
     # ---------------------------------------------------------------- registry
@@ -264,6 +261,31 @@ class RateModel:
             elif key not in eff or r["force"]:
                 eff[key] = r
         return eff
+
+
+def _expand(v, assume, enumerate_conditions=True, depth=0):
+    """Decide the undecided ifexp/phi tests of `v` one at a time (outermost first)."""
+    pe = simp(peval(_comp_filter_eval(peval(v, assume), assume), assume))
+    test = None
+    if enumerate_conditions and depth < 7:
+        for x in walk(pe):
+            if isinstance(x, tuple) and x and x[0] in ("ifexp", "phi") and truthy(x[1]) is None:
+                test = x[1]
+                break
+    if test is None:
+        yield dict(assume), pe
+        return
+    for val in (True, False):
+        a2 = dict(assume)
+        a2[test] = val
+        yield from _expand(pe, a2, enumerate_conditions, depth + 1)
+
+
+def _relevant(leaf, test, assume):
+    """Does flipping `test` change the specialised value?"""
+    a2 = dict(assume)
+    a2[test] = not assume[test]
+    return simp(peval(_comp_filter_eval(peval(leaf, assume), assume), assume)) != simp(peval(_comp_filter_eval(peval(leaf, a2), a2), a2))
 
 
 def _contains(a, b):
